@@ -206,6 +206,46 @@ def _short(case, ctx):
                     ctx.check("CKY|ntw=ref", close(ntw[t], ref), lambda: f"IncrementalCKY.p_next({c})[{t}] = {ntw[t]}, reference {ref}")
 
 
+def _right_linear(arcs, stop):
+    from genlm.grammar import CFG, Float
+
+    cfg = CFG(R=Float, S="S", V={"a", "b"})
+    cfg.add(1.0, "S", ("q", 0))
+    for q, a, r, w in arcs:
+        cfg.add(float(w), ("q", q), a, ("q", r))
+    for q, w in stop.items():
+        cfg.add(float(w), ("q", q))
+    return cfg
+
+
+def _subnormal_window(case, ctx, arcs, stop, b, f, c, alpha, n):
+    """The non-rescaled back-ends are not required to survive underflow, but while the prefix weight
+    of a viable context is still representable (here: subnormal, 1e-315 .. 1e-309) its next-token
+    distribution must still be the normalised one (tolerance 1e-3: subnormals carry ~8 digits)."""
+    from genlm.grammar.parse import earley
+
+    den = sum(x * y for x, y in zip(alpha, b))
+    want = {}
+    for t in ["a", "b"]:
+        new = [Fraction(0)] * n
+        for q, a2, r, w in arcs:
+            if a2 == t:
+                new[r] += alpha[q] * w
+        want[t] = float(sum(x * y for x, y in zip(new, b)) / den)
+    want[EOS] = float(sum(x * y for x, y in zip(alpha, f)) / den)
+    lm = ctx.call("EarleyLM.init", earley.EarleyLM, _right_linear(arcs, stop))
+    if isinstance(lm, LibRaised):
+        return
+    p = ctx.call("EarleyLM.p_next[subnormal]", lm.p_next, c)
+    if isinstance(p, LibRaised):
+        return
+    ctx.cls("subnormal_window")
+    ctx.nontrivial = True
+    vals = {t: float(p[t]) for t in want}
+    ctx.check("subnormal|finite", all(math.isfinite(v) for v in vals.values()), lambda: f"plain EarleyLM, context of {len(c)} tokens with prefix weight ~1e-312: non-finite {vals}")
+    ctx.check("subnormal|cond", all(abs(vals[t] - want[t]) <= 1e-3 for t in want), lambda: f"plain EarleyLM, context of {len(c)} tokens with prefix weight ~1e-312: have {vals} want {want}")
+
+
 def _long(case, ctx):
     from genlm.grammar import CFG, Float
     from genlm.grammar.parse import earley_rescaled
@@ -227,6 +267,8 @@ def _long(case, ctx):
         ctx.cls("empty")
         return
     # walk a viable context
+    window = None
+    LO, HI = math.log(1e-315), math.log(1e-309)
     alpha = [Fraction(1)] + [Fraction(0)] * (n - 1)
     ctxt = []
     logpw = 0.0
@@ -245,7 +287,11 @@ def _long(case, ctx):
         logpw += math.log(s / s0)
         alpha = [x / s for x in new]  # renormalise: conditionals are scale invariant
         ctxt.append(a)
+        if window is None and LO <= logpw + math.log(float(b[0])) <= HI:
+            window = (len(ctxt), list(alpha))
     ctxt = tuple(ctxt)
+    if window is not None:
+        _subnormal_window(case, ctx, arcs, stop, b, f, ctxt[: window[0]], window[1], n)
     logpw += math.log(float(b[0]))  # prefix weight of the empty context is b[0]
     if len(ctxt) < 500:
         ctx.cls("short_walk")
